@@ -150,6 +150,10 @@ impl Sink {
 /// Run the real code, turning a panic into `Err(())`.
 /// set once a call did not come back in time: the thread it runs on is lost (and may hold locks), so later
 /// calls through `with_deadline` are not started any more
+/// how long a call into the code under test may take before it is given up as not terminating: verifications
+/// take milliseconds, so minutes leave room for a machine that is busy with other work
+pub const DEADLINE_SECS: u64 = 300;
+
 pub static HUNG: std::sync::atomic::AtomicBool = std::sync::atomic::AtomicBool::new(false);
 
 type Job = Box<dyn FnOnce() + Send + 'static>;
